@@ -271,9 +271,22 @@ def _kpad_singular_kron_diag(nd):
     return bool((refmodel.dense(d).diagonal(dim1=-2, dim2=-1) <= 0).any())
 
 
-def _kpad_kron_const_batched(nd):
+def _kpad_const_batched_diag_factor(nd):
     d = _kpad_diag(nd)
-    return d["op"] == "KroneckerDiag" and all(a["op"] == "ConstantDiag" for a in d["args"]) and len(refmodel.shape(nd)) > 2
+    if d["op"] != "KroneckerDiag" or not all(a["op"] == "ConstantDiag" for a in d["args"]) or len(refmodel.shape(nd)) <= 2:
+        return False
+    k = next(a for a in nd["args"] if a is not d)
+    return k["op"] == "Kronecker" and any(gen.is_diag_instance(f) for f in k["args"])
+
+
+def _chol_of_structured_tri(nd):
+    b = nd["base"]
+    while b["op"] == "Tri" and "base" in b:
+        inner = b["base"]
+        if inner["op"] not in ("Dense", "Tri", "KroneckerTri") and not gen.is_diag_instance(inner):
+            return True
+        b = inner
+    return False
 
 
 def _reaches_private_root(case):
@@ -291,13 +304,9 @@ def _reaches_private_root(case):
 def _t_kpad_root(case):
     if not _reaches_private_root(case):
         return False
-    inv = case["op"] == "root_inv" and case.get("method") != "pinverse"
-    for nd in _nodes(case, "KroneckerAddedDiag"):
-        if _kpad_kron_const_batched(nd):
-            return True
-        if inv and _kpad_kron_diag_nonunit(nd):
-            return True
-    return False
+    if case["op"] != "root_inv" or case.get("method") == "pinverse":
+        return False
+    return any(_kpad_kron_diag_nonunit(nd) for nd in _nodes(case, "KroneckerAddedDiag"))
 
 
 PROBE_BLIND = ("Diag", "ConstantDiag", "Identity", "KroneckerDiag", "KroneckerAddedDiag", "SumKronecker", "BatchRepeat")
@@ -325,16 +334,15 @@ def _krylov_deficient(r):
 
 
 def _t_block_root(case):
-    """Block operators wrap the Lanczos root of their base (a Tensor, n x k) in their own class, which needs square blocks held
-    by a LinearOperator: broken when k < n (truncation / early stop), when probes are passed on, and for every further use of
-    the wrapped Tensor by an enclosing operator."""
+    """Block operators wrap the (n x k) Lanczos root of their base in their own class, which needs square blocks: broken when
+    k < n (truncation / early stop) and when probe vectors of the whole operator are passed on to the blocks."""
     if case["op"] not in ("root", "root_inv") or not _lz_possible(case):
         return False
     r = case["recipe"]
     for nd in R.walk(r):
         if nd["op"] in ("BlockDiag", "BlockInterleaved") and not gen.is_diag_instance(nd):
             p = refmodel.shape(nd["base"])[-1]
-            if nd is not r or _mrds_eff(case) < p or _krylov_deficient(nd["base"]) or case.get("init"):
+            if _mrds_eff(case) < p or _krylov_deficient(nd["base"]) or case.get("init"):
                 return True
     return False
 
@@ -570,6 +578,21 @@ def normalise(case):
             # positive definite operator; low rank is its purpose, the zero matrix is outside it)
             case["method"] = "symeig"
             avoided.append("pivoted_cholesky_zero_member")
+    ids = _open_ids()
+    if "F-C02-batched-constants" in ids and _reaches_private_root(case) and any(_kpad_const_batched_diag_factor(nd) for nd in _nodes(case, "KroneckerAddedDiag")):
+        # C02's open finding (ConstantDiag * batch of constants raises) is what the batched constant-Kronecker path runs
+        # into when a Kronecker factor is diagonal (its eigenvector operator is a ConstantDiag)
+        case = _direct(case)
+        avoided.append("F-C02-batched-constants")
+    if "F-C15-tri-structured-solve" in ids and case["op"] == "root_inv" and any(_chol_of_structured_tri(nd) for nd in _nodes(case, "Chol")):
+        # CholLinearOperator.root_inv_decomposition inverts its factor: Triangular(<structured operator>).inverse() is C15's
+        # open finding (generic solve of the wrapped operator assumes a symmetric positive definite matrix)
+        case["op"] = "root"
+        case.pop("init", None)
+        case.pop("test", None)
+        if case.get("method") == "pinverse":
+            case["method"] = None
+        avoided.append("F-C15-tri-structured-solve")
     if _reaches_private_root(case) and any(_kpad_singular_kron_diag(nd) for nd in _nodes(case, "KroneckerAddedDiag")):
         # precondition of the class: its Kronecker-diagonal paths form D^{-1/2} (comments in the source; the diagonal is a
         # noise term in every caller), so a diagonal with zero entries is outside the domain of these paths
